@@ -136,12 +136,20 @@ def pinned_items(repo):
     items = {}
     # (EqualsPredicate / InPredicate.__call__, the invert methods, AndConstraint.apply, NullConstraint.apply and
     #  Constraint.apply are translated by narrowsrc.py since phase 3 and no longer pinned)
-    for cls, fns in [("AndConstraint", ["make"]), ("OrConstraint", ["apply", "make", "_constraint_from_list", "_group_constraints"]),
-                     ("Constraint", ["apply_to_values"])]:
+    def _has(cls, fn):
+        try:
+            _find(ss, cls, fn)
+            return True
+        except TranslateError:
+            return False
+
+    for cls, fns in [("AndConstraint", ["make"]), ("OrConstraint", ["apply", "_apply", "make", "_constraint_from_list", "_group_constraints"]),
+                     ("Constraint", ["apply_to_values", "_apply_compound"])]:
+        fns = [f for f in fns if _has(cls, f)]
         for fn in fns:
             items[f"stacked_scopes.{cls}.{fn}"] = _find(ss, cls, fn)
     for node in ss.body:
-        if isinstance(node, ast.FunctionDef) and node.name in ("_constrain_value", "constrain_value"):
+        if isinstance(node, ast.FunctionDef) and node.name in ("_constrain_value", "constrain_value", "_drop_repeated", "_memoized_apply", "_memoized_invert"):
             items[f"stacked_scopes.{node.name}"] = node
     for name, body in _branches(_find(ss, "Constraint", "apply_to_value")):
         if name in ("is_instance", "is_value", "predicate", "one_of", "all_of"):
